@@ -21,6 +21,7 @@ import (
 	"github.com/rs/zerolog"
 
 	"verif/engine/explore"
+	"verif/fcheck"
 	"verif/gen"
 	"verif/ref/refseg"
 )
@@ -145,6 +146,11 @@ func ExchangeHarness(name string, cfg Cfg, pairs [][2]*frame.Frame, bound int) *
 			req := gen.Clone(pr[0]).(*frame.Frame)
 			wantReq := gen.Clone(pr[0]).(*frame.Frame)
 			req.Header.StreamId = 0
+			if modern(cfg.Version) && i%2 == 1 && fcheck.Compressible(req) {
+				// the application flagged the envelope itself (Frame.SetCompress): inside segments envelopes are
+				// never compressed individually, with or without a negotiated compression
+				req.Header.Flags = req.Header.Flags.Add(primitive.HeaderFlagCompressed)
+			}
 			infl, err := p.C.Send(req)
 			if err != nil {
 				o.Fail("C15:send-refused", "CqlClientConnection.Send", "pair %d: %v", i, err)
@@ -164,6 +170,9 @@ func ExchangeHarness(name string, cfg Cfg, pairs [][2]*frame.Frame, bound int) *
 			resp := gen.Clone(pr[1]).(*frame.Frame)
 			wantResp := gen.Clone(pr[1]).(*frame.Frame)
 			resp.Header.StreamId = got.Header.StreamId
+			if modern(cfg.Version) && i%2 == 1 && fcheck.Compressible(resp) {
+				resp.Header.Flags = resp.Header.Flags.Add(primitive.HeaderFlagCompressed)
+			}
 			if err := p.S.Send(resp); err != nil {
 				o.Fail("C15:server-send", "CqlServerConnection.Send", "pair %d: %v", i, err)
 				break
